@@ -17,6 +17,7 @@ mod c14;
 mod c16;
 mod c17;
 mod c18;
+mod c19;
 mod c20;
 mod common;
 mod docgen;
@@ -84,6 +85,7 @@ fn main() {
         "C16" => c16::run(&args),
         "C17" => c17::run(&args),
         "C18" => c18::run(&args),
+        "C19" => c19::run(&args),
         "C20" => c20::run(&args),
         _ => {
             eprintln!("unknown property {prop}");
